@@ -64,7 +64,8 @@ def parse_file(path: Path) -> Union[pymoca.ast.Tree, None]:
         elif log.level == logging.DEBUG:
             log.debug(json.dumps(ast.to_json(ast), indent=2))
     # KeyError and AttributeError are problems in ASTListener
-    except (KeyError, AttributeError, OSError):
+    # UnicodeDecodeError: the file is not UTF-8 text
+    except (KeyError, AttributeError, OSError, UnicodeDecodeError):
         if log.level in (logging.DEBUG, logging.INFO):
             log.exception('Parse error in file "%s"', path)
         else:
@@ -261,7 +262,17 @@ def main(argv: List[str]) -> int:
         if not errors and args.model:
             for model in args.model:
                 if args.target:
-                    translate(library_ast, model, "sympy", options, args.outdir)
+                    try:
+                        success = translate(library_ast, model, "sympy", options, args.outdir)
+                    # flattening inside the generator can throw Exception in several places
+                    except Exception:  # pylint: disable=broad-except
+                        if log.level is logging.DEBUG:
+                            log.exception("Problem generating SymPy model %s", model)
+                        else:
+                            log.error("Problem generating SymPy model %s", model)
+                        success = False
+                    if not success:
+                        errors += 1
                 elif args.model:
                     try:
                         _ = flatten_class(library_ast, model)
@@ -289,12 +300,12 @@ def main(argv: List[str]) -> int:
                         if model_dir:
                             # More than one found (ambiguous)
                             log.error("More than one Modelica file found for %s", model)
-                            errors += 1
                             model_dir = None
                             break
                         model_dir = path.parent
                 if not model_dir:
                     log.error("No unique Modelica file corresponding to model %s", model)
+                    errors += 1
                 else:
                     log.info("Generating model for %s ...", model)
                     try:
